@@ -89,13 +89,13 @@ def sql_parts(prog, module, e, la, fn):
                     if isinstance(r, DefRef) and isinstance(r.node, ast.FunctionDef):
                         rets = [x for x in walk_no_nested(r.node) if isinstance(x, ast.Return) and x.value is not None]
                         if len(rets) == 1:
-                            out += flat(text_structure(r.node, rets[0].value), r.node, r.node._module, depth + 1)
+                            out += flat(text_structure(r.node, rets[0].value, fold=lambda x, m_=r.node._module: prog.fold(m_, x)), r.node, r.node._module, depth + 1)
                             continue
                 out.append(("slot", txt))
         return out
 
     merged = []
-    for k, t in flat(text_structure(fn, e), fn, module):
+    for k, t in flat(text_structure(fn, e, fold=lambda x: prog.fold(module, x)), fn, module):
         if merged and merged[-1][0] == "const" and k == "const":
             merged[-1] = ("const", merged[-1][1] + t)
         else:
